@@ -45,10 +45,15 @@ Schemas == <<
      Tk("\"a\"", "out"), Tk(":", "out"), Tk("{", ""), Tk("\n", "out"), Tk("\"x\"", "out"), Tk(":", "out"), Tk("1", "il"), Tk("//", "il"), Tk("{", "il"), Tk("optional", "il"), Tk(":", "il"), Tk("true", "il"), Tk("}", ""),
      Tk("\n", "out"), Tk("}", "out"), Tk(",", "out"), Tk("\"b\"", "out"), Tk(":", "out"), Tk("[", "il"), Tk("//", "il"), Tk("{", "il"), Tk("maxItems", "il"), Tk(":", "il"), Tk("3", "il"), Tk("}", ""), Tk("\n", "out"),
      Tk("1", "out"), Tk("]", "out"), Tk("}", "out") >>,
+  \* a type shortcut after a non-empty array on the same line, annotated; and an empty inline annotation at a line end
+  << Tk("[", ""), Tk("\n", "out"), Tk("[", "out"), Tk("1", "out"), Tk(",", "out"), Tk("2", "out"), Tk("]", "il"), Tk(",", "out"), Tk("@t", "il"), Tk("//", "il"), Tk("note", ""),
+     Tk("\n", "out"), Tk("]", "out") >>,
+  << Tk("{", ""), Tk("\n", "out"), Tk("\"a\"", "out"), Tk(":", "out"), Tk("1", "il"), Tk(",", "il"), Tk("//", ""), Tk("\n", "out"),
+     Tk("\"b\"", "out"), Tk(":", "out"), Tk("2", "il"), Tk("//", "il"), Tk("{", "il"), Tk("optional", "il"), Tk(":", "il"), Tk("true", "il"), Tk("}", ""), Tk("\n", "out"), Tk("}", "out") >>,
   \* an enum RULE (rules/enum): its own scanner, its own comments
   << Tk("[", "en"), Tk("1", "en"), Tk(",", "en"), Tk("\"a\"", "en"), Tk(",", "en"), Tk("null", "en"), Tk(",", "en"), Tk("2.5", "en"), Tk("]", "en") >>
 >>
-IsEnum(i) == i = 10
+IsEnum(i) == i = 12
 Fillers(g) ==
   CASE g = "out" -> {" ", "\t", "\n", "\r\n", "\r", " # c\n", "#\n", " ### c ### ", "###\nc\n###\n", "  \n\n  "}
     [] g = "ml"  -> {" ", "\t", "\n", "\r\n", " \n\t"}
@@ -58,17 +63,18 @@ Fillers(g) ==
 \* what separates two tokens in the compact spelling (a blank where two tokens would otherwise run together)
 Glue(a, b) == IF a.g = "" THEN "" ELSE IF a.s \in {"//", "/*", "-"} \/ b.s \in {"//", "/*", "*/", "-"} THEN " " ELSE ""
 
-VARIABLES sc, fill          \* fill : gap index -> filler ("" = compact)
+VARIABLES sc, fill, nl      \* fill : gap index -> filler ("" = compact); nl : what the fixed line breaks of the token list are written as
 GapIdx(ts) == {i \in DOMAIN ts : Fillers(ts[i].g) # {}}
 RECURSIVE Build(_, _, _)
 Build(ts, f, i) == IF i > Len(ts) THEN ""
-                   ELSE ts[i].s \o (IF i \in DOMAIN f /\ f[i] # "" THEN f[i] ELSE IF i < Len(ts) THEN Glue(ts[i], ts[i + 1]) ELSE "") \o Build(ts, f, i + 1)
+                   ELSE (IF ts[i].s = "\n" THEN nl ELSE ts[i].s) \o (IF i \in DOMAIN f /\ f[i] # "" THEN f[i] ELSE IF i < Len(ts) THEN Glue(ts[i], ts[i + 1]) ELSE "") \o Build(ts, f, i + 1)
 NoFill(ts) == [i \in DOMAIN ts |-> ""]
 Init == /\ sc \in DOMAIN Schemas
+        /\ nl \in {"\n", "\r\n", "\r"}
         /\ \/ \E i \in GapIdx(Schemas[sc]) : \E x \in Fillers(Schemas[sc][i].g) : fill = [NoFill(Schemas[sc]) EXCEPT ![i] = x]
-           \/ (Strength >= 2 /\ \E i, j \in GapIdx(Schemas[sc]) : i < j /\ \E x \in Fillers(Schemas[sc][i].g), y \in Fillers(Schemas[sc][j].g) :
+           \/ (Strength >= 2 /\ nl = "\n" /\ \E i, j \in GapIdx(Schemas[sc]) : i < j /\ \E x \in Fillers(Schemas[sc][i].g), y \in Fillers(Schemas[sc][j].g) :
                                   fill = [NoFill(Schemas[sc]) EXCEPT ![i] = x, ![j] = y])
-Next == UNCHANGED <<sc, fill>>
-Spec == Init /\ [][Next]_<<sc, fill>>
+Next == UNCHANGED <<sc, fill, nl>>
+Spec == Init /\ [][Next]_<<sc, fill, nl>>
 Emit == PrintT("@@CASE " \o ToJson([id |-> sc, kind |-> IF IsEnum(sc) THEN "enum" ELSE "schema", base |-> Build(Schemas[sc], NoFill(Schemas[sc]), 1), text |-> Build(Schemas[sc], fill, 1)]))
 =================================================================================
